@@ -321,7 +321,7 @@ impl Expr {
 	}
 	pub fn from_rule(pair: Pair<Rule>) -> Self {
 		// we do a little hacking
-		let inner = if matches!(pair.as_rule(), Rule::func_call | Rule::var_ident | Rule::range | Rule::range_inclusive | Rule::bin_expr | Rule::bool_expr_single | Rule::bool_expr | Rule::int | Rule::null | Rule::array) {
+		let inner = if matches!(pair.as_rule(), Rule::func_call | Rule::var_ident | Rule::range | Rule::range_inclusive | Rule::bin_expr | Rule::bool_expr_single | Rule::bool_expr | Rule::int | Rule::null | Rule::array | Rule::var_index) {
 			pair
 		} else {
 			let rule = format!("{:?}",pair.as_rule());
